@@ -62,3 +62,62 @@ def o8_7_confirm(v, out):
     """Native: a put whose log append fails once; the next put (plenty of room in the memtable) must be refused: the database is in its failed state."""
     if out.get('_rc') != 0: return (False, 'native run failed: %s' % out.get('_stderr', '')[-300:])
     return (out.get('second_put_result') == 'Ok' and out.get('fault_hit') == 'true', 'native: a put issued after a failed log append (fault hit: %s; that put returned %s) returned %s' % (out.get('fault_hit'), out.get('put_result'), out.get('second_put_result')))
+
+
+def o8_8_all_db_files(mir, tier):
+    """DB::get_all_db_files (what recovery looks through for the logs it has to replay): the three directory listings (database, log,
+    table directory) each free to fail.  Ok exactly when all three succeeded, and then every file of every listing is in the result;
+    a failed listing is an error - treated as an empty directory it makes recovery skip the logs: acknowledged writes are gone."""
+    from z3 import Bool, And, Not
+    fn = mir.method('DB', 'get_all_db_files')
+    res = Result('O8.8 DB::get_all_db_files reports a failed directory listing', [fn.path], 'three listings, each free to fail; 1 file per directory')
+    t0 = time.time()
+    oks = {d: Bool('list_%s_ok' % d) for d in ('db', 'wal', 'data')}
+    S = lib.std_summaries(); P = S['$patterns']
+    lib.combinator_summaries(P)
+    P[r'DbOptions::filesystem_provider'] = lambda se, env, pc, o: lib.one(env, {'abstract': True, '__ty': 'fs'})
+    P[r'<Arc<dyn FileSystem> as Deref>::deref'] = lib.ident; P[r'<PathBuf as Deref>::deref'] = lib.ident
+    P[r'<Arc<FileNameHandler> as Deref>::deref'] = lib.ident
+    for d, nm in (('db', 'get_db_path'), ('wal', 'get_wal_dir'), ('data', 'get_data_dir')):
+        P[r'FileNameHandler::' + nm] = (lambda dd: lambda se, env, pc, h: lib.one(env, {'dir': dd}))(d)
+    def list_dir(se, env, pc, fs, p):
+        v = p; n = 0
+        while isinstance(v, Ref) and n < 8: v = se.deref(env, v); n += 1
+        d = v['dir']; st = dict(env['$state']); st['listed'] = st['listed'] + [d]
+        return [(oks[d], Enum('Ok', ([{'file_in': d}],)), st), (Not(oks[d]), Enum('Err', ({'kind': 'io', '__ty': 'io::Error'},)), st)]
+    P[r'<dyn FileSystem as FileSystem>::list_dir'] = list_dir
+    def concat(se, env, pc, parts):
+        v = parts; n = 0
+        while isinstance(v, Ref) and n < 8: v = se.deref(env, v); n += 1
+        out = []
+        for x in v:
+            y = x; n = 0
+            while isinstance(y, Ref) and n < 8: y = se.deref(env, y); n += 1
+            out += list(y)
+        return lib.one(env, out)
+    P[r'(?:std|core|alloc)::slice::<impl \[.*\]>::concat'] = concat
+    P[r'Result::unwrap_or_default'] = lambda se, env, pc, r: lib.one(env, r.fields[0] if isinstance(r, Enum) and r.tag == 'Ok' else [])
+    ex = Exec(mir, S, loop_bound=4, opaque_calls_ok=True)
+    def k(ret, env, pc):
+        ok = isinstance(ret, Enum) and ret.tag == 'Ok'
+        allok = And(*oks.values())
+        posts = [('get_all_db_files reports success although a directory could not be listed (recovery then finds no logs / tables there: acknowledged writes are skipped)', BoolVal(ok) == allok)]
+        if ok:
+            got = sorted(str(x.get('file_in')) for x in ret.fields[0] if isinstance(x, dict))
+            posts.append(('a successful listing does not contain the files of all three directories', BoolVal(got == ['data', 'db', 'wal'])))
+        res.cases['%s listed %s' % ('Ok' if ok else 'Err', env['$state']['listed'])] = 1
+        for label, post, m in ex.check_posts(posts, pc):
+            res.violations.append({'label': label, 'replay': ['reopen_listing_fault']})
+    db = mir.mk_struct('DB', options={'abstract': True, '__ty': 'DbOptions'}, file_name_handler={'abstract': True, '__ty': 'FileNameHandler'}) if 'options' in mir.struct_fields('DB') else {'abstract': True, '__ty': 'DB'}
+    ex.top(fn, [Ref('$db')], {'$state': {'listed': []}, '$db': db}, [], k)
+    res.absorb(ex)
+    res.wall_s = time.time() - t0
+    if res.violations: res.status = 'violation'
+    return res
+
+
+def o8_8_confirm(v, out):
+    """Native: a closed database with unflushed writes in its log is reopened while listing the log directory fails; the open must fail
+    - or every acknowledged write must be readable."""
+    if out.get('_rc') != 0: return (True, 'native run panicked / failed: %s' % out.get('_stderr', '')[-300:])
+    return (out.get('open') == 'ok' and out.get('lost', '0') != '0', 'native: reopen while the log directory cannot be listed: open %s, acknowledged keys unreadable afterwards: %s of %s' % (out.get('open'), out.get('lost'), out.get('keys')))
